@@ -51,7 +51,11 @@ class FedStream(httpx.AsyncByteStream):
 
 def chunked(data, rng, maxcuts=3):
     n = rng.randrange(0, maxcuts + 1)
-    cuts = sorted(set(rng.randrange(1, len(data)) for _ in range(n))) if len(data) > 1 else []
+    cuts = set(rng.randrange(1, len(data)) for _ in range(n)) if len(data) > 1 else set()
+    inside = [i for i in range(1, len(data)) if 0x80 <= data[i] <= 0xBF]     # inside a multi-byte character
+    if inside and rng.random() < 0.5:
+        cuts.add(rng.choice(inside))
+    cuts = sorted(cuts)
     return [data[a:b] for a, b in zip([0] + cuts, cuts + [len(data)])]
 
 
@@ -131,7 +135,7 @@ def run_scripts(cases):
                     ev("SendRequest")
                     await idle(2)
                 elif a == "Event":
-                    data = event_bytes({"jsonrpc": "2.0", "id": rid, "result": {"marker": "event", "t": "é\U0001F600 "}})
+                    data = event_bytes({"jsonrpc": "2.0", "id": rid, "result": {"marker": "event", "t": "\u00e9\U0001F600\u2028"}})
                     for c in chunked(data, rng):
                         stream.feed(c)
                     ev("Event")
@@ -247,11 +251,17 @@ def run_scripts(cases):
                 if isinstance(d.get(part), dict):
                     mk = d[part].get("marker", mk)
             if d.get("method") is not None:
-                items.append(["srv", "srv", mk if isinstance(mk, int) else 0, True])
+                if d.get("method") == "notifications/message":
+                    intact = (d.get("params") or {}).get("data") == "d \u00e9"
+                else:
+                    intact = d.get("method") == "roots/list" and d.get("params") == {"marker": mk}
+                items.append(["srv", "srv", mk if isinstance(mk, int) else 0, True, bool(intact)])
             else:
                 same = mid == rid and type(mid) is type(rid)
                 src = mk if mk in ("post", "event") else "synth"
-                items.append(["own" if same else ("ownWrongType" if str(mid) == str(rid) else "other"), src, 0, same])
+                want = {"post": "\u00e9\U0001F600", "event": "\u00e9\U0001F600\u2028"}.get(src)
+                intact = want is None or (d.get("result") or {}).get("t") == want
+                items.append(["own" if same else ("ownWrongType" if str(mid) == str(rid) else "other"), src, 0, same, bool(intact)])
         ev("End", read=items, tasks=len(asyncio.all_tasks()) - tasks_before, clients=all(c.is_closed for c in clients), streams=closed_streams,
            expReq=path["req"], expOwn=path["own"], expSrv=path["srv"])
         return {"estab": estab, "ev": evs, "idshape": idshape, "exit": exit_path}
